@@ -3,6 +3,7 @@
 # Applies the seeded change to a scratch copy of /repo, confirms the repo's suite still passes and the
 # demonstration fails, runs the named checks against the copy, removes the copy.
 set -u
+ROOT="$(cd "$(dirname "$0")/.." && pwd)"
 d=$1; shift
 S=/tmp/seedrepo.$$
 rm -rf $S; cp -r /repo $S; rm -rf $S/.git/worktrees
@@ -13,8 +14,8 @@ if [ -f "$d/demo.py" ]; then
   ( cd $d && PYTHONPATH=/repo /venv/bin/python demo.py >/dev/null 2>&1; echo "demo on clean tree: exit $?" )
 fi
 for c in "$@"; do
-  LOMOND_REPO=$S /verif/check $c --tier ${TIER:-quick} 2>&1 | tail -3
+  LOMOND_REPO=$S "$ROOT/check" $c --tier ${TIER:-quick} 2>&1 | tail -3
 done
 rm -rf $S
 # restore generated files for the real tree
-( cd /verif && PYTHONPATH=/repo /venv/bin/python harness/translate.py >/dev/null )
+( cd "$ROOT" && PYTHONPATH=/repo /venv/bin/python harness/translate.py >/dev/null )
